@@ -1254,7 +1254,15 @@ func checkC02(P *Program, r *Result, tier string) {
 		}
 	}
 	spanFns = append(spanFns, pubSkip)
-	tightRules(P, r, "TIGHT", spanFns)
+	// with the contracts of the span skippers (signs of the helper results) inferred first
+	trun := newE1(P, spanFns, e1Config{StrictLen: true, Wrap: false})
+	trun.run()
+	if debugContracts {
+		for _, l := range trun.contractSummary() {
+			fmt.Println("CONTRACT", l)
+		}
+	}
+	tightRulesA(P, r, "TIGHT", spanFns, trun.A)
 	c02Decoders(P, r)
 }
 
@@ -1458,6 +1466,13 @@ func c02Decoders(P *Program, r *Result) {
 			}
 		case "ReaderSkipDecoder":
 			// IOREADER
+			nread := 0
+			for _, c := range callsIn(sk) {
+				if isInvokeOf(c, "Read") {
+					nread++
+				}
+			}
+			r.require("ReaderSkipDecoder.SkipN: call of io.Reader.Read", nread > 0)
 			for _, c := range callsIn(sk) {
 				if !isInvokeOf(c, "Read") {
 					continue
@@ -1497,6 +1512,45 @@ func c02Decoders(P *Program, r *Result) {
 					}
 				}
 				r.add("IOREADER", shortName(sk), "read", "every read continues where the previous fragment ended", P.pos(instrPos(cc)), okStart, dStart)
+				// … and, like io.ReadFull, an error of the source matters only while bytes are missing: every
+				// return that may hand back an error is taken with (count including the last fragment) < n
+				if sd != nil {
+					rel := sd.Off.sub(c0)
+					nn := resultValue(cc, 0)
+					okFull, dFull := nn != nil, "read count not understood"
+					for _, rc := range retCases(sk) {
+						if !okFull {
+							break
+						}
+						ev := rc.results[len(rc.results)-1]
+						if isNilConst(ev) {
+							continue
+						}
+						ctx := rootCtx
+						blk := rc.at.Block()
+						if iff, isIf := rc.at.(*ssa.If); isIf && rc.pred >= 0 {
+							ef := &edgeFacts{}
+							fa.edgeCond(iff.Block(), rc.ret.Block(), ef)
+							ctx = rootCtx.with(ef.ineq, ef.neq)
+						}
+						// a return inside the iteration that made this read must count the fragment just read;
+						// elsewhere the running count (the loop's phi) is current
+						total := rel
+						if cc.Block().Dominates(blk) {
+							total = rel.add(fa.expand(nn))
+						} else if _, isAtom := singleAtom(rel); !isAtom {
+							continue
+						}
+						if !fa.prove(ineqLT(total, n), blk, ctx) {
+							okFull = false
+							dFull = "the return at " + P.pos(instrPos(rc.ret)) + " may report the source's error although all n bytes have arrived (data delivered together with io.EOF)"
+						}
+					}
+					if okFull {
+						dFull = ""
+					}
+					r.add("IOREADER", shortName(sk), "read", "a source error is reported only while bytes are missing (io.ReadFull semantics)", P.pos(instrPos(cc)), okFull, dFull)
+				}
 			}
 		}
 		// ---- Next ----
@@ -1614,7 +1668,10 @@ func isPlainInt(t types.Type) bool {
 // a value that ends exactly at the end of the input is rejected. The rule only
 // fires when the stronger fact is proved.
 func tightRules(P *Program, r *Result, rule string, fns []*ssa.Function) {
-	A := newAnalysis(P)
+	tightRulesA(P, r, rule, fns, newAnalysis(P))
+}
+
+func tightRulesA(P *Program, r *Result, rule string, fns []*ssa.Function, A *Analysis) {
 	for _, fn := range fns {
 		if fn == nil || fn.Blocks == nil {
 			continue
@@ -1636,11 +1693,13 @@ func tightRules(P *Program, r *Result, rule string, fns []*ssa.Function) {
 		}
 		var avail *Lin
 		var base *Lin
+		spanStyle := false
 		for i, p := range fn.Params {
 			if isUnsafePointer(p.Type()) && i+1 < len(fn.Params) {
 				if b, ok := fn.Params[i+1].Type().Underlying().(*types.Basic); ok && b.Kind() == types.Uintptr {
 					base = fa.ptrExpand(p)
 					avail = fa.expand(fn.Params[i+1])
+					spanStyle = true
 					break
 				}
 			}
@@ -1665,6 +1724,205 @@ func tightRules(P *Program, r *Result, rule string, fns []*ssa.Function) {
 			r.add(rule, shortName(fn), "return", "success does not require more input than it consumes (a value ending exactly at the end of the input is accepted)", P.pos(instrPos(ret)), !strict, "the checks on the way to this return guarantee at least one byte beyond the consumed "+A.linString(cnt))
 		}
 		_ = n
+		if spanStyle {
+			neededChecks(P, r, rule, fa, fn, base, avail, cntIdx)
+		}
+	}
+}
+
+// ptrReadExtent: for a repository helper of one unsafe.Pointer parameter, the
+// number of bytes it reads starting at that pointer (0 if not of that shape).
+func ptrReadExtent(fn *ssa.Function) int64 {
+	if fn == nil || fn.Blocks == nil || len(fn.Params) != 1 || !isUnsafePointer(fn.Params[0].Type()) {
+		return 0
+	}
+	var ext int64
+	for _, b := range fn.Blocks {
+		for _, in := range b.Instrs {
+			ld, ok := in.(*ssa.UnOp)
+			if !ok || ld.Op != token.MUL {
+				continue
+			}
+			cv, ok := isUnsafeDeref(ld.X)
+			if !ok {
+				continue
+			}
+			off := int64(-1)
+			switch q := cv.X.(type) {
+			case *ssa.Parameter:
+				off = 0
+			case *ssa.Call:
+				if bi, isB := q.Common().Value.(*ssa.Builtin); isB && bi.Name() == "Add" && q.Common().Args[0] == ssa.Value(fn.Params[0]) {
+					if k, isC := constInt(q.Common().Args[1]); isC && k >= 0 {
+						off = k
+					}
+				}
+			}
+			if off < 0 {
+				return 0
+			}
+			w := int64(1)
+			if bt, ok := deref(ld.X.Type()).Underlying().(*types.Basic); ok {
+				switch bt.Kind() {
+				case types.Int16, types.Uint16:
+					w = 2
+				case types.Int32, types.Uint32, types.Float32:
+					w = 4
+				case types.Int64, types.Uint64, types.Float64:
+					w = 8
+				}
+			}
+			if off+w > ext {
+				ext = off + w
+			}
+		}
+	}
+	return ext
+}
+
+// neededChecks: a test against the end of the input whose failing side is an
+// error return must be *needed*: whenever it passes and the walk goes on to
+// succeed, the bytes it asked for are really read or counted (a load at or
+// beyond that position, a nested skip starting there, or a success return
+// reporting at least that much). A test that asks for more than is ever
+// consumed rejects well-formed input that happens to end early.
+func neededChecks(P *Program, r *Result, rule string, fa *FA, fn *ssa.Function, base, avail *Lin, cntIdx int) {
+	A := fa.A
+	availID, isAtom := singleAtom(avail)
+	if !isAtom {
+		return
+	}
+	res := fn.Signature.Results()
+	isErrRet := func(b *ssa.BasicBlock) bool {
+		for hops := 0; hops < 3; hops++ {
+			last := b.Instrs[len(b.Instrs)-1]
+			if ret, ok := last.(*ssa.Return); ok {
+				return isKnownError(ret.Results[res.Len()-1])
+			}
+			if _, ok := last.(*ssa.Jump); ok && len(b.Instrs) == 1 {
+				b = b.Succs[0]
+				continue
+			}
+			return false
+		}
+		return false
+	}
+	// justified: the instruction reads at/after the required end, or counts it
+	justifies := func(in ssa.Instruction, need *Lin) bool {
+		blk := in.Block()
+		switch x := in.(type) {
+		case *ssa.UnOp:
+			if x.Op != token.MUL {
+				return false
+			}
+			cv, ok := isUnsafeDeref(x.X)
+			if !ok {
+				return false
+			}
+			addr := fa.ptrExpand(cv.X)
+			if addr == nil {
+				return false
+			}
+			return fa.prove(ineqLE(need, addr.addConst(fa.sizeof(deref(x.X.Type())))), blk, rootCtx)
+		case *ssa.Call:
+			cal := x.Common().StaticCallee()
+			if cal == nil || !inRepo(cal) {
+				return false
+			}
+			args := x.Common().Args
+			if ext := ptrReadExtent(cal); ext > 0 {
+				if addr := fa.ptrExpand(args[0]); addr != nil {
+					return fa.prove(ineqLE(need, addr.addConst(ext)), blk, rootCtx)
+				}
+				return false
+			}
+			// a nested skip over [q, e): every value has at least one byte
+			for i, p := range cal.Params {
+				if isUnsafePointer(p.Type()) && i+1 < len(args) && fa.expand(args[i+1]).equal(avail) {
+					if addr := fa.ptrExpand(args[i]); addr != nil {
+						return fa.prove(ineqLE(need, addr.addConst(1)), blk, rootCtx)
+					}
+				}
+			}
+		case *ssa.Return:
+			if !isNilConst(x.Results[res.Len()-1]) {
+				return false
+			}
+			cnt := fa.expand(x.Results[cntIdx])
+			return fa.prove(ineqLE(need, base.add(cnt)), blk, rootCtx)
+		}
+		return false
+	}
+	for _, b := range fn.Blocks {
+		iff, ok := b.Instrs[len(b.Instrs)-1].(*ssa.If)
+		if !ok || b.Succs[0] == b.Succs[1] {
+			continue
+		}
+		for side := 0; side < 2; side++ {
+			pass, fail := b.Succs[side], b.Succs[1-side]
+			if !isErrRet(fail) || isErrRet(pass) {
+				continue
+			}
+			ef := &edgeFacts{}
+			fa.condFacts(iff.Cond, side == 0, ef)
+			for _, f := range ef.ineq {
+				f = normIneq(f)
+				c, has := f.T[availID]
+				if !has || c.Cmp(bi(-1)) != 0 {
+					continue
+				}
+				// f:  need − e ≤ 0
+				need := f.add(avail)
+				// search: every way from the passing side to a success return meets a justification first
+				okAll, why := true, ""
+				seen := map[*ssa.BasicBlock]bool{b: true}
+				var walk func(blk *ssa.BasicBlock)
+				walk = func(blk *ssa.BasicBlock) {
+					if !okAll || seen[blk] {
+						return
+					}
+					seen[blk] = true
+					for _, in := range blk.Instrs {
+						if justifies(in, need) {
+							return
+						}
+						if ret, isRet := in.(*ssa.Return); isRet {
+							if isNilConst(ret.Results[res.Len()-1]) {
+								okAll = false
+								why = "success at " + P.pos(instrPos(ret)) + " is reached without ever reading or counting up to " + A.linString(need)
+							}
+							return
+						}
+					}
+					for _, s := range blk.Succs {
+						if s.Dominates(b) && s != b {
+							// a loop comes round: the values the check spoke about are stale beyond this point; the
+							// requirement is met if a cursor carried round the loop has moved past it
+							adv := false
+							k := -1
+							for i, p := range s.Preds {
+								if p == blk {
+									k = i
+								}
+							}
+							for _, a := range fa.phiAtomsOf(s) {
+								if k >= 0 && (a.Kind == aVal) && fa.prove(ineqLE(need, base.add(fa.phiIn(a, k))), blk, rootCtx) {
+									adv = true
+								}
+							}
+							if !adv {
+								okAll = false
+								why = "the loop at " + P.pos(instrPos(s.Instrs[0])) + " is re-entered without the cursor having passed " + A.linString(need)
+							}
+							continue
+						}
+						walk(s)
+					}
+				}
+				walk(pass)
+				r.add(rule, shortName(fn), "check", "a length check that can fail asks for no more than what is then read or counted", P.pos(instrPos(iff)), okAll, why)
+			}
+		}
 	}
 }
 
